@@ -63,6 +63,29 @@ static int check_tuple(const dtype_t *t, uint32_t spd, uint32_t sdf, uint32_t ep
         v_violation("C16", key, wj, "normalising took %.2f CPU seconds (normal: ~100 ns): neither rejected nor stored in reasonable time", dt);
         return 1;
     }
+    if (t->kind != 2) {
+        /* the fixed-point exponent q of an integer type says where the binary point lies, not how wide a sample is:
+         * the same request with q != 0 is accepted or rejected alike and stored with the same six parameters */
+        static const uint32_t qs[] = {1, 4, 8, 15, 31, 63, 127, 200, 255};
+        uint32_t q = qs[(hts >> 16) % 9];
+        struct jls_signal_def_s f; memset(&f, 0, sizeof(f));
+        f.signal_id = 1; f.source_id = 0; f.signal_type = JLS_SIGNAL_TYPE_FSR; f.data_type = t->code | (q << 16); f.sample_rate = 1000;
+        f.samples_per_data = spd; f.sample_decimate_factor = sdf; f.entries_per_summary = eps; f.summary_decimate_factor = sumdf;
+        f.annotation_decimate_factor = adf; f.utc_decimate_factor = udf;
+        v_ctx("%s q=%u spd=%u sdf=%u eps=%u sumdf=%u adf=%u udf=%u", t->name, q, spd, sdf, eps, sumdf, adf, udf);
+        int32_t rcq = jls_core_signal_def_validate(&f);
+        if (!rcq) rcq = jls_core_signal_def_align(&f);
+        v_count("C16", "fixed_point_twins_compared", 1);
+        if ((rcq != 0) != (rc != 0) || (!rc && (f.samples_per_data != d.samples_per_data || f.sample_decimate_factor != d.sample_decimate_factor
+                || f.entries_per_summary != d.entries_per_summary || f.summary_decimate_factor != d.summary_decimate_factor
+                || f.annotation_decimate_factor != d.annotation_decimate_factor || f.utc_decimate_factor != d.utc_decimate_factor))) {
+            snprintf(key, sizeof(key), "relation|fixed-point-q-changes-normalisation|spd=%s|sdf=%s|eps=%s|sumdf=%s", mag(spd), mag(sdf), mag(eps), mag(sumdf));
+            v_violation("C16", key, wj, "%s with q=%u: rc %d, stored (%u,%u,%u,%u,%u,%u); with q=0: rc %d, stored (%u,%u,%u,%u,%u,%u)", t->name, q, rcq,
+                        f.samples_per_data, f.sample_decimate_factor, f.entries_per_summary, f.summary_decimate_factor, f.annotation_decimate_factor, f.utc_decimate_factor, rc,
+                        d.samples_per_data, d.sample_decimate_factor, d.entries_per_summary, d.summary_decimate_factor, d.annotation_decimate_factor, d.utc_decimate_factor);
+            return 1;
+        }
+    }
     if (rc) return 0;   /* rejected with an error: fine */
     ++*accepted;
     uint32_t o_spd = d.samples_per_data, o_sdf = d.sample_decimate_factor, o_eps = d.entries_per_summary, o_sum = d.summary_decimate_factor;
